@@ -142,6 +142,32 @@ def fresh_project_storm(viol, stats, rounds):
         pr.destroy()
 
 
+def vanished_target_queries(viol, stats):
+    """The read-only queries beside anything: none of them may write inside its (DEFERRED, never committed) transaction —
+    also when the dirtiness walk meets a generated target whose file has been removed (the "target vanished" branch of
+    deps.rs forgets that it was a target)."""
+    pr = Project()
+    try:
+        pr.write("a.do", "redo-ifchange b\ncat b\n")
+        pr.write("b.do", "echo b\n")
+        r0 = sched.run_cmds(pr, [["redo", "a"]], timeout=30)[0]
+        pr.rm("b")
+        for cmd in (["redo-ood"], ["redo-targets"], ["redo-sources"]):
+            r = sched.run_cmds(pr, [cmd], timeout=30)[0]
+            per = txn_events(r.trace)
+            reqs = ["sqltxn-replay " + (";".join(ev) if ev else "-") for ev in per.values()]
+            ans = run_lines(MODEL, reqs) if reqs else []
+            stats["processes"] += len(per)
+            for (pid, ev), a in zip(per.items(), ans):
+                m = re.match(r"ok busy=(\d+)\s*(.*)", a)
+                if a.startswith("reject") or (m and int(m.group(1)) > 0) or r.rc != 0:
+                    p = write_replay("C16", "vanished-query", dict(kind="model-flags-busy-possible", scenario="a.do: redo-ifchange b; cat b.  b.do: echo b.  redo a; rm b; " + " ".join(cmd), events=ev, answer=a, rc=r.rc, stderr=r.err[-600:]))
+                    viol.append(Violation("C16", p, "`%s` after a generated target's file was removed writes inside its DEFERRED transaction (%s): 'database is locked' as soon as another command commits meanwhile" % (" ".join(cmd), (m.group(2) if m else a))))
+                    return
+    finally:
+        pr.destroy()
+
+
 def run(ctx):
     rng = random.Random(ctx["seed"] * 13 + 16)
     viol = ctx.setdefault("violations", [])
@@ -156,6 +182,8 @@ def run(ctx):
         fresh_project_storm(viol, stats, 150 if thorough else 30)
     if not viol:
         same_target_twice(viol, stats)
+    if not viol:
+        vanished_target_queries(viol, stats)
     for rnd in range(rounds if not viol else 0):
         pr = Project()
         try:
@@ -166,6 +194,8 @@ def run(ctx):
             fresh = rng.random() < 0.4
             if not fresh:
                 r0 = sched.run_cmds(pr, [["redo", "all"]], timeout=60)[0]
+                if rng.random() < 0.5:
+                    pr.rm(rng.choice(sorted(g)))          # a generated file vanished: the queries meet it
             k = rng.choice([2, 4, 8] if thorough else [2, 4, 6])
             names = sorted(g)
             cmds = []
